@@ -451,7 +451,7 @@ func TestC17(t *testing.T) {
 		"value = input<<offset (input itself when shift==0), mask = (2^w-1)<<offset, value&^mask==0, both exactly width bytes, registers byte-equal to NewRegMatchField; out of range => error, no panic, no silent acceptance; " +
 		"the caller's *big.Int / slice is unchanged. For the offset-only form the window is as wide as the data (the builder's doc comment: start=mask[0], width=len(data)). " +
 		"Non-trivial: window not byte-aligned, or top bit of the window set, or an out-of-range input; distinct by (name,type,value,window).")
-	c.Assume("widths come from the independent table of harness/spec; window arguments are passed as int", "shift argument only 0 or 1 (the two documented meanings)")
+	c.Assume("widths come from the independent table of harness/spec; window arguments are passed as int, or as uint8 / uint16 when they fit and the value is a uint64 / uint32", "shift argument only 0 or 1 (the two documented meanings)")
 
 	names, width := c17Fields()
 	if shard0() {
@@ -529,12 +529,35 @@ func TestC17(t *testing.T) {
 			}
 		}
 		// out-of-range perturbations
+		wrapType := ""
 		switch mode {
 		case 0: // value wider than the window / field
 			extra := rapid.IntRange(1, 70).Draw(rt, "extra_bits")
 			k.input.SetBit(k.input, w+extra-1+map[bool]int{true: off, false: 0}[nwin == 3 && k.win[2] == 0], 1)
 		case 1: // window beyond the field
-			if nwin >= 2 {
+			if nwin >= 2 && gen.Pick(rt, "wrap_sum", 3) == 0 {
+				// offset + width is exactly 2^8 or 2^16: beyond every fixed-width field, and zero when
+				// the sum is computed in the window's own uint8 / uint16 type (nmfCall passes it so)
+				tot := []int{256, 65536}[gen.Pick(rt, "wrap_total", 2)]
+				a := rapid.IntRange(1, tot-1).Draw(rt, "wrap_off")
+				// boundary splits: each argument alone as small as it can be (half the total), or one of
+				// them exactly the field's width
+				switch gen.Pick(rt, "wrap_split", 4) {
+				case 0:
+					a = tot / 2
+				case 1:
+					if bits < tot {
+						a = bits
+					}
+				case 2:
+					if bits < tot {
+						a = tot - bits
+					}
+				}
+				k.win[0], k.win[1] = a, tot-a
+				k.input.SetInt64(1)
+				wrapType = map[int]string{256: "uint64", 65536: "uint32"}[tot]
+			} else if nwin >= 2 {
 				k.win[gen.Pick(rt, "which", 2)] += rapid.IntRange(bits-off-w+1, 4096).Draw(rt, "beyond")
 			} else if nwin == 1 {
 				k.win[0] = rapid.IntRange(bits-k.input.BitLen()+1, bits+4096).Draw(rt, "beyond1")
@@ -566,6 +589,10 @@ func TestC17(t *testing.T) {
 			}
 		}
 		k.vtype = tys[gen.Pick(rt, "type", len(tys))]
+		if wrapType != "" {
+			k.vtype = wrapType
+			c.Label("window-sum-wraps-in-" + map[string]string{"uint64": "uint8", "uint32": "uint16"}[wrapType])
+		}
 		nmfModel(&k)
 		c.Label("class=" + k.class)
 		c.Label("convention=" + convention(k))
